@@ -280,6 +280,13 @@ def r6_masking_cursor(ctx, rep):
     c20.r4_cursor_progress(ctx, rep)
 
 
+
+def r7_no_transform_after_restore(ctx, rep):
+    """literal text is preserved verbatim: nothing rewrites a value after the masked literals were put back
+    (shared with C18.R2)"""
+    from . import c18
+    c18.r2_no_transform_after_restore(ctx, rep)
+
 RULES = [
     RuleSpec("C02.R6", r6_masking_cursor, "masking loops advance past the placeholder (shared with C20.R4)", floor=2),
     RuleSpec("C02.R1", r1_comment_recogniser, "comment recogniser == Fortran comment rule", floor=6),
@@ -287,4 +294,5 @@ RULES = [
     RuleSpec("C02.R3", r3_scanners, "character scanners == reference automaton", floor=1),
     RuleSpec("C02.R4", r4_masking, "masking dominates dispatch; case folding after masking", floor=2),
     RuleSpec("C02.R5", r5_continuation, "continuation joining removes exactly the & characters", floor=3),
+    RuleSpec("C02.R7", r7_no_transform_after_restore, "no rewriting after literals are re-inserted (shared with C18.R2)", floor=2),
 ]
